@@ -2,6 +2,7 @@
 // quarter units (interval end points are integers = multiples of 4 quarter units), ordinates are printed in units of 1/64.
 #include <iostream>
 #include <cmath>
+#include <limits>
 #include <gudhi/Persistence_landscape.h>
 #include <gudhi/Persistence_landscape_on_grid.h>
 #include "common.h"
@@ -24,6 +25,7 @@ int main() {
         if (o == "window") { lo = L(t[1]); hi = L(t[2]); return "window"; }
         if (o == "diag") { E[L(t[1])] = Persistence_landscape(diag_at(t, 2)); return "diag"; }
         if (o == "gdiag") { G[L(t[1])] = Persistence_landscape_on_grid(diag_at(t, 5), (double)L(t[2]), (double)L(t[3]), (size_t)L(t[4])); return "gdiag"; }
+        if (o == "gdiagl") { G[L(t[1])] = Persistence_landscape_on_grid(diag_at(t, 6), (double)L(t[2]), (double)L(t[3]), (size_t)L(t[4]), (unsigned)L(t[5])); return "gdiagl"; }
         if (o == "eval" || o == "geval") { long a = L(t[1]), nl = L(t[2]); bool g = o == "geval";
           for (long k = 0; k < nl; ++k) { r << (k ? "\n" : "") << "lev " << k << ":"; for (long x = lo; x <= hi; ++x) { double v = g ? G[a].compute_value_at_a_given_point((unsigned)k, x * 0.25) : E[a].compute_value_at_a_given_point((unsigned)k, x * 0.25); r << " " << q64(v); } }
           return r.str(); }
@@ -34,7 +36,11 @@ int main() {
         if (o == "avg") { std::vector<Persistence_landscape*> v; for (size_t i = 2; i < t.size(); ++i) v.push_back(&E[L(t[i])]); Persistence_landscape res; res.compute_average(v); E[L(t[1])] = res; return "avg"; }
         if (o == "int") return "int " + num(E[L(t[1])].compute_integral_of_landscape());
         if (o == "dist") { long p = L(t[3]); auto &a = E[L(t[1])], &b = E[L(t[2])];
-          if (p == 0) return "dist " + num(compute_max_norm_distance_of_landscapes(a, b));
+          if (p == 0) {   // the sup distance by its three public routes
+            double big = std::numeric_limits<double>::max();
+            double m1 = compute_max_norm_distance_of_landscapes(a, b), m2 = compute_distance_of_landscapes(a, b, big), m3 = a.distance(b, big);
+            if (std::fabs(m1 - m2) > 1e-9 || std::fabs(m1 - m3) > 1e-9) return "dist sup-routes-differ " + num(m1) + " " + num(m2) + " " + num(m3);
+            return "dist " + num(m1); }
           double d = compute_distance_of_landscapes(a, b, (double)p); double d2 = a.distance(b, (double)p); if (std::fabs(d - d2) > 1e-9) return "dist member-and-friend-differ";
           return "dist " + num(p == 2 ? d * d : d); }
         if (o == "ip") { double v = compute_inner_product(E[L(t[1])], E[L(t[2])]); double w = E[L(t[1])].compute_scalar_product(E[L(t[2])]); if (std::fabs(v - w) > 1e-9) return "ip member-and-friend-differ"; return "ip " + num(v); }
